@@ -264,6 +264,7 @@ func init() {
 		Units: []Unit{
 			{Name: "exhaustive", QShards: 4, TShards: 12, Run: c15Exhaustive},
 			{Name: "random", QShards: 6, TShards: 12, Run: c15Random},
+			{Name: "fanout", Run: c15Fanout},
 		},
 	})
 }
@@ -449,5 +450,69 @@ func c15Random(c *Ctx) {
 			}
 			k.Count("histories", 1)
 		})
+	}
+}
+
+// c15Fanout: nodes with very many children, up to all 256 byte values, at the
+// root and below a prefix, observed after every few operations.
+func c15Fanout(c *Ctx) {
+	idx := int64(0)
+	for _, prefix := range []string{"", "p", "\x00\xff"} {
+		for _, order := range []int{0, 1, 2} {
+			c.Case(idx, func(k *K) {
+				r := k.Rand()
+				t := trie.New()
+				m := newSetModel()
+				perm := r.Perm(256)
+				if order == 0 {
+					for i := range perm {
+						perm[i] = i
+					}
+				} else if order == 1 {
+					for i := range perm {
+						perm[i] = 255 - i
+					}
+				}
+				var hist []trieOp
+				k.Input("history", func() string { return fmt.Sprintf("%d operations under prefix %q", len(hist), prefix) })
+				step := func(o trieOp, observe bool) bool {
+					hist = append(hist, o)
+					if !applyOp(k, t, m, o, fmt.Sprintf("step %d", len(hist))) {
+						return false
+					}
+					if !observe {
+						return true
+					}
+					probes := append(m.Members(), prefix, "", o.s)
+					if !observeTrie(k, t, m, probes, fmt.Sprintf("after step %d (%d children)", len(hist), len(m.Members()))) {
+						return false
+					}
+					t2 := jsonRebuild(k, t, fmt.Sprintf("after step %d", len(hist)))
+					return t2 != nil && observeTrie(k, t2, m, probes, fmt.Sprintf("JSON-rebuilt trie after step %d", len(hist)))
+				}
+				for i, b := range perm {
+					s := prefix + string([]byte{byte(b)})
+					if i%7 == 0 {
+						s += "x"
+					}
+					if !step(trieOp{false, s}, i < 3 || i >= 125 && i <= 130 || i >= 250) {
+						return
+					}
+				}
+				k.Count("full_fanout_nodes", 1)
+				// delete a few and add back
+				for j := 0; j < 6; j++ {
+					b := perm[r.IntN(256)]
+					if !step(trieOp{true, prefix + string([]byte{byte(b)})}, true) {
+						return
+					}
+					if !step(trieOp{false, prefix + string([]byte{byte(b)}) + "y"}, true) {
+						return
+					}
+				}
+				k.Nontrivial([]byte(prefix), []byte{byte(order)})
+			})
+			idx++
+		}
 	}
 }
